@@ -154,3 +154,8 @@ type MapObjV struct {
 	Val ArrData
 	Len *Term
 }
+
+// CellRef is how a contract environment binds the name of a variable captured by a closure: the
+// name denotes the variable's current value (loaded from its cell in the state the expression is
+// evaluated in), not the cell.
+type CellRef struct{ P *PtrV }
